@@ -1,71 +1,103 @@
 """C13 - object-oriented world/orbit state is history-independent.
 
 Technique: model-based stateful testing.  A *case* is one configuration plus one history
-`{'config': {...}, 'ops': [[op_name, kwargs, deferred], ...]}` drawn by a Hypothesis strategy from the
-rule set below (the JSON equivalent of a RuleBasedStateMachine run: replayable, shrinkable by deleting
-steps).  The MODEL is a plain dict with the last value written per field; an orbital-size write
-(period | frequency | semi-major axis) replaces the previous one whatever its unit, and for a
-`force_spin_sync` world it also replaces the spin by "locked to n" (that is what every orbit-level
-setter documents).
+`{'config': {...}, 'ops': [[op_name, kwargs, deferred], ...], 'check': [bool per step]}` drawn by a Hypothesis
+strategy from the rule set below (the JSON equivalent of a RuleBasedStateMachine run: replayable, shrinkable by
+deleting steps).  The MODEL is a plain dict with the last value written per field; an orbital-size write (period |
+frequency | semi-major axis) replaces the previous one whatever its unit, and for a `force_spin_sync` world it also
+replaces the spin by "locked to n" (what every orbit-level setter documents).
 
 Configuration axes (drawn per case)
-  model     cpl | ctl (ctl_calc_method linear_simple) | ctl_q (linear_simple_with_q: depends on fixed_dt
-            AND fixed_q) | layered (LayeredTides; Maxwell or Andrade in the tidal layer)
-  base      earth | io: global-approx worlds are `simple_tidal` worlds with the radius of the WorldPack
-            config and an explicit mass (as Tests/Test_Old/Test_SetW_OOP_OrbitTides/test_a does); layered
-            worlds are built with build_from_world from 'earth_simple' / 'io_simple'.  Host and star is a
-            private copy of '55cnc' (tides off => single-body orbital derivatives).
-  blank     False: the world starts in the orbit its config ships with (P/a, e); True: those keys are
-            stripped, so the world starts with no orbit at all and quantities appear as state arrives.
-  sync, obl (obliquity_tides_on), trunc in {2,6}, lmax 2 (3 for layered in the thorough tier),
+  model     cpl | ctl (ctl_calc_method linear_simple) | ctl_q (linear_simple_with_q: depends on fixed_dt AND
+            fixed_q) | layered (LayeredTides; Maxwell or Andrade in the tidal layers)
+  base      earth | io: global-approx worlds are `simple_tidal` worlds with the radius of the WorldPack config and an
+            explicit mass (as Tests/Test_Old/Test_SetW_OOP_OrbitTides/test_a does); layered worlds are built with
+            build_from_world from 'earth_simple' (TWO tidally active layers, see BASES) / 'io_simple' (one).  Host
+            and star is a private build_world('55cnc') (tides off => single-body orbital derivatives).
+  cooling   layered only: off | convection | conduction for the tidal layers (off twice as likely: the thermal
+            feedback of the other two runs into KF-C13-complex-surface-temperature, the search continues behind it)
+  blank     False: the world starts in the orbit its config ships with (P/a, e); True: those keys are stripped, the
+            world starts with no orbit at all and quantities appear as state arrives.
+  sync, obl (obliquity_tides_on), trunc in {2,6}, lmax 2 (3 for layered worlds in the thorough tier),
   array     every written value is a float, or every one is a shape-(3,) array (fixed shape).
 
-Operations (values log-uniform / uniform, see `_value`)
-  orbit.set_state(world, <non-empty subset of {one of P|n|a, e}>)      [deferred variant: call_orbit_change=False
-                                                                      followed by the documented orbit.orbit_changed(...)]
-  orbit.set_<field>(world, v), world.<field> = v (property setters)  for P, n, a, e
+Operations (values log-uniform / uniform, see `_value` and `DOMAIN`); 3 of 4 histories are primed with one complete
+world.set_state and layered ones with a temperature for every tidal layer, so that the tides are live early
+  orbit.set_state(world, <non-empty subset of {one of P|n|a, e}>)    [deferred variant: call_orbit_change=False, then
+                                                                     the documented orbit.orbit_changed(world, flags)]
+  orbit.set_<field>(world, v), world.<field> = v (property setters) for P, n, a, e
   world.set_state(<non-empty subset of {one of P|n|a, e, spin_period|spin_frequency, obliquity}>)
-  world.set_spin_period / set_spin_frequency / set_obliquity (v)      [deferred: call_updates=False + world.orbit_spin_changed(<flag>=True)]
+  world.set_spin_period / set_spin_frequency / set_obliquity (v)     [deferred: call_updates=False, then
+                                                                     world.orbit_spin_changed(<that flag>=True)]
   world.<spin_period|spin_frequency|obliquity> = v
-  world.set_fixed_q / set_fixed_dt (v), world.fixed_q = v, world.tides.set_state(fixed_q=, fixed_dt=)
-                                                                      [deferred: run_updates=False + tides.fixed_q_dt_changed()]
-  orbit.time = t  (world.set_state(time=) raises the documented ImproperPropertyHandling once an orbit is attached)
-  layer.set_temperature(T) / layer.temperature = T / layer.set_state(temperature=T)  (layered; tidal layer, rarely a non-tidal one)
-A deferred call is always followed at once by the explicit update the docstring names, with exactly the
-flags of what was changed - an API that is told not to update is not "stale by defect".
+  world.set_fixed_q / set_fixed_dt (v), world.fixed_q|fixed_dt = v, world.tides.set_state(fixed_q=, fixed_dt=)
+                                                                     [deferred: run_updates=False, then tides.fixed_q_dt_changed()]
+  orbit.time = t   (world.set_state(time=) raises the documented ImproperPropertyHandling once an orbit is attached)
+  layer.set_temperature(T) / layer.temperature = T / layer.set_state(temperature=T)   (layered; each tidal layer,
+                                                                     rarely a non-tidal one)
+A deferred call is always followed at once by the explicit update its docstring names, with exactly the flags of what
+was changed - an API that is told not to update is not "stale by defect".
 
-Oracles, evaluated after every checked step (the last step always, earlier ones with probability 0.75)
-  model     what the getters report for the primary state equals the model: e, obliquity, spin (== n when
-            locked), fixed_q/dt, layer temperature bit-for-bit; (a, n, P) against an independent Kepler
-            computation in Python floats to KEPLER_RTOL = 1e-13 (C17's clause, 8 ulp + the (1/3) literal).
-  fresh     every exposed derived quantity of the history world equals that of a FRESHLY BUILT world + orbit
-            + star put into the model state directly: fixed_q/dt through the build config, layer temperature
-            before the orbit is attached, then ONE orbit.set_state and ONE world.set_state, each given the
-            same primary values the history wrote last (same unit, so no conversion noise).  Quantities:
-            unique tidal frequencies (keys and values), global_love_by_orderl, global_negative_imk_by_orderl,
-            tidal_heating_global, per-layer tidal_heating, dUdM, dUdw, dUdO, orbit.get_eccentricity/
-            semi_major_axis/orbital_motion_time_derivative(world), world.calc_spin_derivative().  None must
-            match None; otherwise element-wise |x-y| <= RTOL*max(|x|,|y|), RTOL = 1e-12, NaN == NaN.
-            Calibration: over 6 000 histories on the unchanged tree the history world and the fresh world
-            were bit-identical in every quantity (worst deviation 0.0) except where a defect below applies;
-            a stale term changes the result by >= 1e-3 relative.  Only the most upstream differing quantity
-            of the first failing step is reported (signature {clause, quantity, model, field_changed}); the
-            history stops there.
-  functional  global-approx models: the history world equals TidalPy.toolbox.quick_tides.quick_tidal_dissipation
-            at the state read back from the objects (n, spin, e, obliquity, fixed_q/dt, k2, R, M, g, rho, MOI).
-            Established first on fresh worlds (2x2x2x2x2 configurations x 6 random states): CPL and CTL
-            (linear_simple; linear_simple_with_q via fixed_dt := fixed_dt/fixed_q) agree BIT-FOR-BIT in heating,
-            dUdM/dUdw/dUdO, k2, -Im k2, de/dt, da/dt, a, and to 2.3e-16 in the spin derivative (operation
-            order) - the two APIs are the same calculation, so the clause is asserted for all global-approx
-            models to RTOL (F_RTOL = 1e-11 for ctl_q because of the regrouped product).  Not asserted for
-            layered worlds (the functional API is documented for homogeneous one-layer bodies).
+Oracles, evaluated after EVERY step (so the first stale quantity is attributed to the field just written)
+  model     what the getters report for the primary state equals the model: e, obliquity, time, spin frequency (== n
+            when locked), fixed_q/dt, layer temperature bit-for-bit; (a, n, P) against an independent Kepler
+            computation to KEPLER_RTOL = 1e-13 (C17's clause: 8 ulp + the (1/3) literal), spin period 1e-13.
+  fresh     every listed derived quantity of the history world equals that of a FRESHLY BUILT world + orbit + star put
+            into the model state directly: fixed_q/dt through the build config, layer temperatures before the orbit is
+            attached, then ONE orbit.set_state and ONE world.set_state, each given the primary values the history
+            wrote last in the unit it wrote them (no conversion noise).  Quantities: unique tidal frequencies (keys and
+            values), global_love_by_orderl, global_negative_imk_by_orderl, per-layer tidal_heating,
+            tidal_heating_global, dUdM, dUdw, dUdO, orbit.get_{eccentricity,semi_major_axis,orbital_motion}_time_
+            derivative(world), world.calc_spin_derivative() (the spin derivative is only exposed through that call).
+            None must match None, shapes must match; else element-wise |x-y| <= RTOL*max(|x|,|y|), RTOL = 1e-12,
+            NaN == NaN.  Calibration: over > 12 000 histories on the unchanged tree the two worlds were BIT-IDENTICAL
+            in every quantity (worst deviation 0.0); a stale term changes the result by >= 1e-4 relative.  Only the
+            most upstream differing quantity of the first failing step is reported, signature {clause, quantity,
+            model, field_changed}; the history stops there.
+  functional  global-approx models: the history world equals TidalPy.toolbox.quick_tides.quick_tidal_dissipation at the
+            state read back from the objects (n, spin, e, obliquity, fixed_q/dt, k2, R, M, g, rho, MOI).  Established
+            first on fresh worlds (2^5 configurations x 6 random states): CPL and CTL (linear_simple) agree
+            BIT-FOR-BIT in heating, dUdM/dUdw/dUdO, k2, -Im k2, de/dt, da/dt, a, and to 2.3e-16 in the spin derivative
+            (operation order): the two APIs are the same calculation, so (b) is asserted for cpl and ctl; ctl_q is
+            compared through fixed_dt := fixed_dt/fixed_q (same law, product regrouped).  The functional API accepts
+            n or P only, so after a semi-major-axis write its a differs from the orbit's by a Kepler round trip
+            (<= 8 ulp): measured OOP-vs-functional deviation <= 1.6e-14 in every quantity (F_RTOL = 1e-12).  The
+            potential derivatives are alternating sums over modes (dUdO of a spin-locked CTL world cancels to 1e-10
+            of its terms) and de/dt is a difference of nearly equal numbers for small e; last-bit noise in such a sum
+            is judged against the size of the cancelling terms, S_X = |susceptibility|/M_host * sum_modes |term_X| *
+            |Im k_mode| taken from the world's own mode table (`_cancel_scales`), i.e. |x-y| <= 1e-12*max(|x|,|y|,S).
+            Without it one ctl_q history in ~1 000 failed at 2e-6 of a 1e-37 value.  Not asserted for layered worlds
+            (the functional API is documented for homogeneous one-layer bodies).
+  exceptions  a setter of the history that raises although a fresh world put into the same state does not (or the
+            reverse) is a failure {clause: exception, quantity: <type>, where: <call site>}; if both raise the same
+            type the history ends without verdict (label both-raise).  The two pure oracle calls are retried once
+            (label `retried:*`): a numba on-disk-cache race between cold shards does not repeat, a real failure does.
+Not asserted, only counted (label `unlisted-differs:*`): surface_temperature / insolation_heating of layered worlds -
+they are not among the quantities the property lists and ARE path dependent (see the report / known finding).
 
-Known on the pinned snapshot (both repaired in /repo, each re-found by this check on the reverted tree):
-  fixes/revert-2854a61.diff  e-only / obliquity-only update left the tidal terms stale
-  fixes/revert-7baff3f.diff  fixed_q / fixed_dt update left the CPL/CTL Love dictionary stale
+Defects
+  repaired in /repo, each re-found on the reverted tree (fixes/revert-2854a61.diff: e-only / obliquity-only update left
+  the tidal terms stale; fixes/revert-7baff3f.diff: fixed_q / fixed_dt update left the CPL/CTL Love dictionary stale);
+  KF-C13-complex-surface-temperature (known_findings.d/C13.json, replays/C13-complex-surface-temperature.json,
+  proposed repair out/proposed-fix-C13-1.diff): with a convection/conduction cooling model the one-pass surface-
+  temperature <-> cooling feedback leaves (insolation + internal heating) negative, calc_equilibrium_temperature
+  returns a complex number and the next setter raises numba TypingError - in the history but not in a fresh world.
 
-Sensitivity (tools/mut.py C13 ..., quick tier) - see the report at the end of this docstring block in
-`MUTATIONS`.
+Sensitivity (tools/mut.py C13 ..., quick tier, final module; all CAUGHT unless stated)
+  --patch fixes/revert-2854a61.diff                                   -> fresh/{unique_tidal_frequencies,tidal_heating_global}, field e
+  --patch fixes/revert-7baff3f.diff                                   -> fresh/global_love_by_orderl, field fixed_q / fixed_dt
+  global_approx.py collapse_modes: drop world.dissipation_changed()   -> fresh/{da/dt,de/dt} stale after fixed_q / fixed_dt
+  layered.py collapse_modes: drop world.dissipation_changed()         -> fresh/{da/dt,de/dt} stale after a temperature update
+  base.py: keep tidal_susceptibility across an orbital_freq change    -> fresh/tidal_heating_global (+ per layer)
+  basic.py set_obliquity: obliquity_changed=True -> False              -> fresh/tidal_heating_global, field obliquity
+  orbit/base.py set_semi_major_axis: no spin update for locked worlds -> model/spin_locked
+  basic.py set_state: no spin update for locked worlds                -> model/spin_locked + fresh
+  rheology.py strength_changed: drop complex_compliances_changed()    -> fresh (temperature update, layered)
+  global_approx.py: keep the CPL/CTL Love dict across new frequencies -> fresh/global_love_by_orderl
+  rheology.py tidal_frequencies_changed: keep old complex compliances -> exception/collapse_modes + fresh/global_love_by_orderl
+  orbit/physics.py orbit_changed: drop self.dissipation_changed(w)    -> MISSED, equivalent mutant: collapse_modes already
+                                                                         reaches orbit.dissipation_changed through world.dissipation_changed
+  --patch out/proposed-fix-C13-1.diff                                 -> no violation, known finding no longer reproduced
 """
 import copy
 import math
@@ -80,27 +112,28 @@ TECHNIQUE = ('model-based stateful property testing (Hypothesis-generated operat
              'differential oracle: freshly built objects and the functional API)')
 LEVEL = 'exploration'
 LEVEL_TEXT = ('Generated-input exploration of setter/set_state histories (<= 12 steps quick, <= 40 thorough) over CPL/CTL/layered '
-              'configurations; after the checked steps every exposed derived quantity is compared with a freshly built world placed '
+              'configurations; after every step every listed derived quantity is compared with a freshly built world placed '
               'in the model state and with quick_tidal_dissipation. Says history independence held on every generated history, '
               'not for all histories.')
 LEVEL_NOTE = ('The fresh world is built by the same code (so a defect that does not depend on history is invisible here; C09-C12 cover '
               'the values themselves); the functional API was shown to be the same calculation bit-for-bit on fresh CPL/CTL worlds. '
               'Deferred-update flags are only used together with the explicit update their docstring names. Host/star has tides off.')
-CASES = {'quick': 1600, 'thorough': 16000}
+CASES = {'quick': 1600, 'thorough': 24000}
 SHARDS = {'quick': 16, 'thorough': 16}
 TIMEOUT = {'quick': 1500, 'thorough': 4 * 3600}
-SHRINK_BUDGET = (250, 120.0)
+SHRINK_BUDGET = (200, 90.0)
 MAX_STEPS = {'quick': 12, 'thorough': 40}
 NARR = 3
 RTOL = 1e-12
 F_RTOL = {'cpl': 1e-12, 'ctl': 1e-12, 'ctl_q': 1e-12}
 KEPLER_RTOL = 1e-13
 
-RULE = ('Hypothesis draws a configuration (model cpl|ctl|ctl_q|layered x base earth|io x rheology maxwell|andrade x blank-start x '
+RULE = ('Hypothesis draws a configuration (model cpl|ctl|ctl_q|layered x base earth|io x rheology maxwell|andrade x cooling off|convection|conduction x blank-start x '
         'force_spin_sync x obliquity tides x truncation 2|6 x scalar|array(3)) and a history of 1..12 (thorough 40) operations from '
         'the rule set (orbit.set_state subsets, individual orbit setters, world property setters, world.set_state subsets, spin/'
         'obliquity setters, fixed_q/fixed_dt setters, tides.set_state, orbit.time, layer temperature; deferred variants followed by the '
-        'documented explicit update). P in 1..200 d (n, a equivalent), e in [0,0.6], spin period 0.3..200 d, obliquity [0,1.5], '
+        'documented explicit update; 3 of 4 histories primed with a full world.set_state, layered ones with layer temperatures). '
+        'The invariant is evaluated after every step. P in 1..200 d (n, a equivalent), e in [0,0.6], spin period 0.3..200 d, obliquity [0,1.5], '
         'Q in 3..1e4, dt in 1..1e4 s, T in 600..2100 K, t in 0..4600 Myr. Non-trivial: the history contains an update that changes '
         'ONLY e, ONLY obliquity, ONLY fixed_q, ONLY fixed_dt or ONLY a layer temperature after an orbital/spin frequency update and '
         'while the tides are live (tidal_heating_global is not None before the update) - the stale-prone orders; distinct = distinct '
@@ -108,7 +141,10 @@ RULE = ('Hypothesis draws a configuration (model cpl|ctl|ctl_q|layered x base ea
 ASSUMPTIONS = ['fresh world: build config carries fixed_q/fixed_dt, layer temperature set before the orbit is attached, then one '
                'orbit.set_state + one world.set_state with the last-written primary values',
                'RTOL=1e-12 relative element-wise (measured deviation on the unchanged tree: 0.0), NaN==NaN, None==None',
-               'functional oracle asserted for cpl/ctl/ctl_q only (bit-identical to the OOP path on fresh worlds; 2.3e-16 in dspin/dt)',
+               'functional oracle asserted for cpl/ctl/ctl_q only (bit-identical to the OOP path on fresh worlds; 2.3e-16 in dspin/dt); '
+               'F_RTOL=1e-12 relative to max(|x|,|y|,S) with S the size of the cancelling mode terms (measured deviation <= 1.6e-14)',
+               'a setter that raises in the history but not for a fresh world in the same state (or the reverse) is a failure; both raising '
+               'the same exception type ends the history without verdict',
                'Kepler: a^3 n^2 = G(M+m), P = 2 pi/n/86400 to 1e-13 (G from TidalPy.constants)',
                'only the most upstream differing quantity of the first failing step is reported per history']
 
@@ -130,10 +166,6 @@ QUANTITY_ORDER = ['unique_tidal_frequencies', 'global_love_by_orderl', 'global_n
                   'tidal_heating_by_layer', 'tidal_heating_global', 'dUdM', 'dUdw', 'dUdO',
                   'eccentricity_time_derivative', 'semi_major_axis_time_derivative',
                   'orbital_motion_time_derivative', 'spin_time_derivative']
-
-MUTATIONS = """
-Sensitivity mutations (tools/mut.py C13 ..., quick tier, all must be CAUGHT) - filled in after the runs, see module end.
-"""
 
 _S = {}
 _WORST = {}   # calibration aid: worst accepted deviation per (clause|model, quantity)
@@ -938,9 +970,16 @@ def evaluate(case):
             c.fails[-1]['detail'] += ' ' + _describe(cfg, ops, i)
             break
         try:
-            with repo_call('fresh'):
-                fworld, forbit, fstar = _fresh(cfg, model)
-                fobs = _observe(fworld, forbit, cfg)
+            try:
+                with repo_call('fresh'):
+                    fworld, forbit, fstar = _fresh(cfg, model)
+                    fobs = _observe(fworld, forbit, cfg)
+            except RepoRaised as err:
+                # building the reference is pure as well: retry once (see the functional clause)
+                c.label('retried:' + type(err.exc).__name__)
+                with repo_call('fresh'):
+                    fworld, forbit, fstar = _fresh(cfg, model)
+                    fobs = _observe(fworld, forbit, cfg)
         except RepoRaised as err:
             c.label('fresh-raises:' + type(err.exc).__name__)
             c.fail(dict(sig, clause='exception', quantity=type(err.exc).__name__, via='fresh-only', where=_where(err.exc)),
@@ -968,8 +1007,14 @@ def evaluate(case):
                 if not _exact(_num(getattr(world, name)), _num(getattr(fworld, name))):
                     c.label('unlisted-differs:' + name)
         if cfg['model'] != 'layered':
-            with repo_call('quick_tidal_dissipation'):
-                fun = _functional(world, star, cfg)
+            try:
+                with repo_call('quick_tidal_dissipation'):
+                    fun = _functional(world, star, cfg)
+            except RepoRaised as err:
+                # the functional call is pure: a deterministic failure repeats, a numba cache race between cold shards does not
+                c.label('retried:' + type(err.exc).__name__)
+                with repo_call('quick_tidal_dissipation'):
+                    fun = _functional(world, star, cfg)
             if fun is not None:
                 c.label('functional-checked')
                 for q in QUANTITY_ORDER:
